@@ -65,7 +65,10 @@ def check_roundtrip(j) -> None:
     fname = j["flavour"]
     sub = g.build_subroutine(j)
     case = {"kind": "sub", **j}
-    raw = bytes(sub)
+    try:
+        raw = bytes(sub)
+    except Exception as e:
+        raise Failure("roundtrip:encode-raises", case, f"encoding an in-range subroutine raised {type(e).__name__}: {e}")
     if len(raw) != 4 + 7 * len(sub.instructions):
         raise Failure("roundtrip:length", case, f"{len(raw)} bytes for {len(sub.instructions)} instructions")
     try:
